@@ -144,12 +144,42 @@ func (c *Cookie) SetDomain(domain string) {
 func (c *Cookie) SetPath(path string) {
 	c.buf = append(c.buf[:0], path...)
 	c.path = normalizePath(c.path, c.buf)
+	c.escapePath()
 }
 
 // SetPathBytes sets cookie path.
 func (c *Cookie) SetPathBytes(path []byte) {
 	c.buf = append(c.buf[:0], path...)
 	c.path = normalizePath(c.path, c.buf)
+	c.escapePath()
+}
+
+// escapePath percent-encodes again those bytes decoded by normalizePath which a path attribute
+// cannot carry: ';' ends the attribute, control bytes are not allowed in it (RFC 6265 section 4.1.1)
+// and trailing spaces are trimmed by the recipient.
+func (c *Cookie) escapePath() {
+	const upperhex = "0123456789ABCDEF"
+	end := len(c.path)
+	for end > 0 && c.path[end-1] == ' ' {
+		end--
+	}
+	clean := end == len(c.path)
+	for i := 0; clean && i < end; i++ {
+		b := c.path[i]
+		clean = b != ';' && b >= ' ' && b != 0x7f
+	}
+	if clean {
+		return
+	}
+	c.buf = c.buf[:0]
+	for i, b := range c.path {
+		if b == ';' || b < ' ' || b == 0x7f || i >= end {
+			c.buf = append(c.buf, '%', upperhex[b>>4], upperhex[b&15])
+		} else {
+			c.buf = append(c.buf, b)
+		}
+	}
+	c.path = append(c.path[:0], c.buf...)
 }
 
 // SetExpire sets cookie expiration time.
